@@ -2,9 +2,11 @@ package checks
 
 import (
 	"bytes"
+	"encoding/json"
 	"fmt"
 	"reflect"
 	"sort"
+	"sync"
 	"unsafe"
 
 	"github.com/cocosip/go-dicom-codecs/jpeg2000"
@@ -74,10 +76,10 @@ func (p *recPD) GetFrame(i int) ([]byte, error) {
 	}
 	return p.frames[i], nil
 }
-func (p *recPD) AddFrame(b []byte) error           { p.added = append(p.added, b); return nil }
-func (p *recPD) FrameCount() int                   { return len(p.frames) }
+func (p *recPD) AddFrame(b []byte) error             { p.added = append(p.added, b); return nil }
+func (p *recPD) FrameCount() int                     { return len(p.frames) }
 func (p *recPD) GetFrameInfo() *imagetypes.FrameInfo { return p.info }
-func (p *recPD) IsEncapsulated() bool              { return false }
+func (p *recPD) IsEncapsulated() bool                { return false }
 
 type c10Case struct {
 	TS           int
@@ -246,8 +248,9 @@ type histOp struct {
 }
 
 type c10HistCase struct {
-	TS  int
-	Ops []int
+	TS       int
+	Ops      []int
+	RefOrder int // 0: history-free references computed in the order EA, EB, DA, DB; 1: EB, EA, DB, DA
 }
 
 func histFixtures(ts tsInfo) (fiA, fiB *imagetypes.FrameInfo, fa, fb [][]byte) {
@@ -274,25 +277,27 @@ func c10HistRun(a c10HistCase, c *eng.Ctx) *eng.Fail {
 	}
 	fiA, fiB, fa, fb := histFixtures(ts)
 	// reference results: each op as the only call (on the same registry instance, before the history)
-	refEA, f := encodeSeq(cd, fiA, fa)
-	if f != nil {
-		f.Key = ts.Name + "|hist|" + f.Key
-		return f
+	var refEA, refEB, refDA, refDB [][]byte
+	var f *eng.Fail
+	order := []int{0, 1, 2, 3}
+	if a.RefOrder == 1 {
+		order = []int{1, 0, 3, 2}
 	}
-	refEB, f := encodeSeq(cd, fiB, fb)
-	if f != nil {
-		f.Key = ts.Name + "|hist|" + f.Key
-		return f
-	}
-	refDA, f := decodeSeq(cd, fiA, refEA)
-	if f != nil {
-		f.Key = ts.Name + "|hist|" + f.Key
-		return f
-	}
-	refDB, f := decodeSeq(cd, fiB, refEB)
-	if f != nil {
-		f.Key = ts.Name + "|hist|" + f.Key
-		return f
+	for _, k := range order {
+		switch k {
+		case 0:
+			refEA, f = encodeSeq(cd, fiA, fa)
+		case 1:
+			refEB, f = encodeSeq(cd, fiB, fb)
+		case 2:
+			refDA, f = decodeSeq(cd, fiA, refEA)
+		case 3:
+			refDB, f = decodeSeq(cd, fiB, refEB)
+		}
+		if f != nil {
+			f.Key = ts.Name + "|hist|" + f.Key
+			return f
+		}
 	}
 	before := deepKey(reflect.ValueOf(cd))
 	for step, op := range a.Ops {
@@ -332,6 +337,39 @@ func c10HistRun(a c10HistCase, c *eng.Ctx) *eng.Fail {
 }
 
 var c10HistFn = eng.Reg("C10.codec-history", func(a c10HistCase) *eng.Fail { return c10HistRun(a, nil) })
+
+// c10HistFreshFn runs the history case in a fresh process.
+func c10HistFreshFn(a c10HistCase) *eng.Fail {
+	raw, _ := json.Marshal(a)
+	f, ok := eng.FreshRun("C10", "C10.codec-history", raw)
+	if !ok {
+		return &eng.Fail{Key: "__internal__", Detail: fmt.Sprintf("no answer from the fresh process for %+v", a)}
+	}
+	return f
+}
+
+// plainNoPad reports whether values of t contain no pointers and no padding bytes, so that their memory image is
+// a function of their value.
+func plainNoPad(t reflect.Type) bool {
+	switch t.Kind() {
+	case reflect.Bool, reflect.Int, reflect.Int8, reflect.Int16, reflect.Int32, reflect.Int64,
+		reflect.Uint, reflect.Uint8, reflect.Uint16, reflect.Uint32, reflect.Uint64, reflect.Uintptr, reflect.Float32, reflect.Float64:
+		return true
+	case reflect.Array:
+		return plainNoPad(t.Elem())
+	case reflect.Struct:
+		var sum uintptr
+		for i := 0; i < t.NumField(); i++ {
+			f := t.Field(i)
+			if f.Name == "_" || !plainNoPad(f.Type) {
+				return false
+			}
+			sum += f.Type.Size()
+		}
+		return sum == t.Size()
+	}
+	return false
+}
 
 // deepKey renders every field (exported or not) reachable from v, following pointers, with cycle protection.
 func deepKey(v reflect.Value) string {
@@ -388,7 +426,27 @@ func deepKey(v reflect.Value) string {
 			}
 			n := v.Len()
 			fmt.Fprintf(&b, "[%d:", n)
-			if n > 64 && (v.Type().Elem().Kind() <= reflect.Float64) {
+			if et := v.Type().Elem(); n > 16 && plainNoPad(et) && (v.Kind() == reflect.Slice || v.CanAddr()) {
+				// long pointer-free, padding-free element type: hash the raw memory
+				var base unsafe.Pointer
+				if v.Kind() == reflect.Slice {
+					base = v.UnsafePointer()
+				} else {
+					base = unsafe.Pointer(v.UnsafeAddr())
+				}
+				mem := unsafe.Slice((*byte)(base), n*int(et.Size()))
+				h := uint64(1469598103934665603)
+				i := 0
+				for ; i+8 <= len(mem); i += 8 {
+					x := *(*uint64)(unsafe.Pointer(&mem[i]))
+					h = (h ^ x) * 1099511628211
+					h ^= h >> 29
+				}
+				for ; i < len(mem); i++ {
+					h = (h ^ uint64(mem[i])) * 1099511628211
+				}
+				fmt.Fprintf(&b, "#%x", h)
+			} else if n > 64 && (v.Type().Elem().Kind() <= reflect.Float64) {
 				// long numeric slices: hash
 				h := uint64(1469598103934665603)
 				for i := 0; i < n; i++ {
@@ -422,12 +480,22 @@ func deepKey(v reflect.Value) string {
 				return
 			}
 			keys := v.MapKeys()
-			strs := make([]string, len(keys))
-			for i, k := range keys {
-				strs[i] = fmt.Sprint(k)
+			type kv struct {
+				k string
+				v reflect.Value
 			}
-			sort.Strings(strs)
-			fmt.Fprintf(&b, "map%v", strs)
+			kvs := make([]kv, len(keys))
+			for i, k := range keys {
+				kvs[i] = kv{fmt.Sprint(k), v.MapIndex(k)}
+			}
+			sort.Slice(kvs, func(i, j int) bool { return kvs[i].k < kvs[j].k })
+			b.WriteString("map[")
+			for _, e := range kvs {
+				b.WriteString(e.k + ":")
+				walk(e.v, depth+1)
+				b.WriteString(" ")
+			}
+			b.WriteString("]")
 		case reflect.Func:
 			if v.IsNil() {
 				b.WriteString("nilfunc")
@@ -436,6 +504,21 @@ func deepKey(v reflect.Value) string {
 			}
 		case reflect.Bool, reflect.Int, reflect.Int8, reflect.Int16, reflect.Int32, reflect.Int64, reflect.Uint, reflect.Uint8, reflect.Uint16, reflect.Uint32, reflect.Uint64, reflect.Float32, reflect.Float64, reflect.String:
 			fmt.Fprintf(&b, "%v", v)
+		case reflect.Uintptr:
+			fmt.Fprintf(&b, "%d", v.Uint())
+		case reflect.UnsafePointer:
+			// the address is not a value, but nil versus set is (sync.Pool's per-P storage, lazily allocated buffers)
+			if v.UnsafePointer() == nil {
+				b.WriteString("nilptr")
+			} else {
+				b.WriteString("ptr")
+			}
+		case reflect.Chan:
+			if v.IsNil() {
+				b.WriteString("nilchan")
+			} else {
+				fmt.Fprintf(&b, "chan(len %d)", v.Len())
+			}
 		default:
 			fmt.Fprintf(&b, "<%s>", v.Kind())
 		}
@@ -574,10 +657,10 @@ func newDec() *jpeg2000.Decoder {
 }
 
 type decResult struct {
-	pix          []byte
-	w, h, nc, p  int
-	signed       bool
-	err          string
+	pix         []byte
+	w, h, nc, p int
+	signed      bool
+	err         string
 }
 
 func decodeOnce(d *jpeg2000.Decoder, s []byte) decResult {
@@ -684,6 +767,50 @@ func c10(c *eng.Ctx) {
 		}
 	})
 	c.Subspace("codec-call-histories", c.Evals()-before, true, "14 registry instances x every history of depth 0..3 over {Encode A, Encode B (other FrameInfo), Decode A, Decode B}")
+	c.Trans(c.Evals() - before)
+	// (2b) the same histories, each from a fresh process: state that the library keeps between calls (a pool, a cache,
+	// a lazily built table) is then really absent when the history-free references are computed, whereas inside the
+	// exploring process earlier cases may have left the same residue in the references and in the history.
+	before = c.Evals()
+	var fjobs []c10HistCase
+	fdepth := 2
+	if c.Thorough() {
+		fdepth = 3
+	}
+	for ti := range tss {
+		for l := 1; l <= fdepth; l++ {
+			cnt := eng.Pow(4, l)
+			for k := 0; k < cnt; k++ {
+				ops := make([]int, l)
+				eng.SeqAt(4, l, k, ops)
+				for ro := 0; ro < 2; ro++ {
+					fjobs = append(fjobs, c10HistCase{TS: ti, Ops: ops, RefOrder: ro})
+				}
+			}
+		}
+	}
+	var fmu sync.Mutex
+	fi := 0
+	fdone := c.Par(4, func(int) {
+		for {
+			fmu.Lock()
+			i := fi
+			fi++
+			fmu.Unlock()
+			if i >= len(fjobs) || c.Expired() {
+				return
+			}
+			a := fjobs[i]
+			c.Eval(1)
+			if f := c10HistFreshFn(a); f != nil {
+				if f.Key == "__internal__" {
+					c.Abort("fresh-process history: %s", f.Detail)
+				}
+				eng.Recheck(c, "C10.codec-history", a, c10HistFreshFn)
+			}
+		}
+	})
+	c.Subspace("codec-call-histories-fresh-process", c.Evals()-before, fdone && !c.Expired(), fmt.Sprintf("14 codecs x every history of depth 1..%d x 2 orders of computing the history-free references, each case in a fresh process (4 at a time)", fdepth))
 	c.Trans(c.Evals() - before)
 	// (3)
 	before = c.Evals()
